@@ -225,3 +225,43 @@ def rules_schema_render(u, rep):
                         if not ok:
                             rep.add("RENDER", "%s:data-index" % b.d.get("name"), "Schema::%s indexes the data with %s instead of row.offset..row.offset+row.size" % (b.d.get("name"), label(idx)), b.loc())
     rep.count("render_index_sites", n)
+
+
+def rule_entry_points(u, rep):
+    """Serialize::serialize and Serialize::serialize_with_schema are the same stream operation: with the value and
+    the recording symbolic, both put the same atoms on the user's backend, in the same order, and end by flushing it."""
+    from . import wire, interp
+    w = wire.Wire(u)
+    terms = {}
+    for b in u.bodies.values():
+        if b.d.get("krate") == "epserde" and b.d.get("name") in ("serialize", "serialize_with_schema") and b.d.get("parent_kind") == "Trait" and b.thir is not None \
+                and b.id.startswith("epserde::ser::Serialize::"):
+            try:
+                ip, paths = w.extract(b, "ser")
+            except interp.Unsupported as ex:
+                rep.add("EXTRACT", "entry:" + b.d["name"], "cannot extract the stream term of Serialize::%s: %s" % (b.d["name"], ex), b.loc())
+                continue
+            oks = [p for p in paths if p.outcome == "ok"]
+            for p in oks:
+                if p.problems:
+                    rep.add("ENTRY", "problems:" + b.d["name"], "Serialize::%s: %s" % (b.d["name"], [str(x)[:100] for x in p.problems][:2]), b.loc())
+            terms[b.d["name"]] = (b, oks)
+    a, c = terms.get("serialize"), terms.get("serialize_with_schema")
+    if a is None or c is None:
+        rep.add("ANCHOR", "Serialize entry points", "cannot locate Serialize::serialize / serialize_with_schema")
+        return 0
+    sa = sorted(set(p.show() for p in a[1]))
+    sc = sorted(set(p.show() for p in c[1]))
+    ok = sa == sc and len(sa) == 1
+    rep.oblige(ok)
+    if not ok:
+        rep.add("ENTRY", "terms", "Serialize::serialize puts [%s] on the backend but serialize_with_schema puts [%s]" % (" | ".join(sa), " | ".join(sc)), c[0].loc())
+    for nm, (b, oks) in terms.items():
+        for p in oks:
+            last = p.atoms[-1].k if p.atoms else None
+            okf = last == "Flush"
+            rep.oblige(okf)
+            if not okf:
+                rep.add("ENTRY", "flush:" + nm, "Serialize::%s returns without flushing the backend as its last stream operation (ends with %s): a buffering backend keeps the tail of the stream" % (nm, last), b.loc())
+    rep.count("entry_points_compared", len(terms))
+    return len(terms)
